@@ -43,6 +43,9 @@ type EnvCfg struct {
 	ClientIP      string
 	Port          int
 	HintMandatory bool
+	// PreMTUC/PreMTUS: if non-zero the endpoints are first configured with
+	// this MTU and then re-configured with MTUC/MTUS (a profile edit/reload).
+	PreMTUC, PreMTUS int
 }
 
 // TapWrite is one tapped stream write.
@@ -152,6 +155,9 @@ func NewEnv(cfg EnvCfg) (*Env, error) {
 		e.PatSE = tc.Effective()
 		e.Srv.SetTrafficPattern(tc)
 	}
+	if cfg.PreMTUS != 0 {
+		e.Srv.SetEndpoints([]protocol.UnderlayProperties{protocol.NewUnderlayProperties(cfg.PreMTUS, cfg.transport(), cfg.serverAddr(), nil)})
+	}
 	e.Srv.SetEndpoints([]protocol.UnderlayProperties{protocol.NewUnderlayProperties(cfg.MTUS, cfg.transport(), cfg.serverAddr(), nil)})
 	if err := e.Srv.Start(); err != nil {
 		return nil, err
@@ -236,6 +242,9 @@ func (e *Env) NewClient(ui int, ip string) (*protocol.Mux, error) {
 		}
 		e.PatCE = tc.Effective()
 		m.SetTrafficPattern(tc)
+	}
+	if e.Cfg.PreMTUC != 0 {
+		m.SetEndpoints([]protocol.UnderlayProperties{protocol.NewUnderlayProperties(e.Cfg.PreMTUC, e.Cfg.transport(), nil, e.Cfg.serverAddr())})
 	}
 	m.SetEndpoints([]protocol.UnderlayProperties{protocol.NewUnderlayProperties(e.Cfg.MTUC, e.Cfg.transport(), nil, e.Cfg.serverAddr())})
 	e.mu.Lock()
